@@ -13,6 +13,7 @@ NoResize(t) == {}
 Lim0 == {0}
 LimInf == {-1}
 LimMix == {-1, 0, 1}
+Lim01 == {0, 1}
 NoFill == {<<>>}
 
 \* ------------------------------------------------------------- C05: cursor
@@ -57,6 +58,7 @@ ScrollAlphabet(t) ==
   \cup {FS("Decset", <<1047>>), FS("Decrst", <<1047>>)}
 ScrollSizes == {<<1, 1>>, <<2, 2>>, <<1, 3>>, <<2, 3>>, <<2, 4>>}
 ScrollSizesQ == {<<1, 1>>, <<2, 2>>, <<2, 3>>}
+ScrollSizesT == {<<1, 1>>, <<2, 2>>, <<1, 3>>, <<2, 3>>}
 SgrSizes == {<<2, 2>>}
 ScrollResizes(t) == {<<c, r>> \in {<<2, 2>>, <<2, 3>>, <<1, 4>>} : <<c, r>> # <<t.cols, t.rows>>}
 ScrollInitFills == {Labelled(sz[2], sz[1]) : sz \in ScrollSizes} \cup {<<>>}
